@@ -353,6 +353,15 @@ func HeadlessStream(seed int64) *Stream {
 		c0 := uint8(5)
 		ps = append(ps, Packetize(PSIUnit(0, 0, [][]byte{SecPAT(modelPAT(1, 0x1000), ref.SecHdr{CNI: true})}, nil), nil, &c0, true)...)
 	}
+	// a PID joined in mid-unit (two start-less packets), a counter gap, one more start-less packet, then a unit start:
+	// what precedes the gap is gone, the parser may be handed the packet behind it, never the three together
+	{
+		tail := bytes.Repeat([]byte{0x66}, 184)
+		ps = append(ps, &ref.Pkt{PID: 0x102, HasPL: true, CC: 3, Payload: tail}, &ref.Pkt{PID: 0x102, HasPL: true, CC: 4, Payload: tail},
+			&ref.Pkt{PID: 0x102, HasPL: true, CC: 9, Payload: tail})
+		c2 := uint8(10)
+		ps = append(ps, Packetize(PESUnit(0x102, 0xc0, pesPayload(63, 50, seed), 3, true), nil, &c2, false)...)
+	}
 	// SI PID: a headless packet that looks like pointer_field 0 + a complete SDT section
 	sec := SecSDT(modelSDT(1), ref.SecHdr{CNI: true})
 	pl := append(append([]byte{0x00}, sec...), bytes.Repeat([]byte{0xff}, 183-len(sec))...)
@@ -468,6 +477,13 @@ func c19Parsers(c *mc.Ctx, st *Stream, refPk []*ref.Pkt) {
 				idx = append(idx, found)
 			}
 			groups[pid] = append(groups[pid], idx)
+			// whatever the partition, a unit never spans a continuity counter gap: the packets handed over are
+			// consecutive payload packets of their PID
+			for k := 1; k < len(idx); k++ {
+				if idx[k] >= 0 && idx[k-1] >= 0 && refPk[idx[k]].CC != (refPk[idx[k-1]].CC+1)&0xf && refPk[idx[k]].CC != refPk[idx[k-1]].CC {
+					bad = fmt.Sprintf("parser was handed a unit that spans a continuity counter gap (counter %d after %d on PID %#x)", refPk[idx[k]].CC, refPk[idx[k-1]].CC, pid)
+				}
+			}
 			switch {
 			case mode == -3000:
 				if constSlice[pid] == nil {
